@@ -21,7 +21,9 @@ CellOf(a) == LET p == LoROM(a) IN <<ClsNo(Class(p)), p - ClassBase(Class(p))>>
 Get(c) == IF c \in DOMAIN mem THEN mem[c] ELSE Init0(c[1], c[2])
 Put(c, v) == [x \in DOMAIN mem \cup {c} |-> IF x = c THEN v ELSE mem[x]]
 
+B3(a, i) == (a \div 65536) * 65536 + ((a + i) % 65536)         \* i-th byte of a 24-bit read, wrapping inside the bank
 Ok(e) == CASE e.k = "rd"   -> e.v = Get(CellOf(e.a))
+           [] e.k = "rd24" -> e.v = << Get(CellOf(B3(e.a, 0))) + 256 * Get(CellOf(B3(e.a, 1))), Get(CellOf(B3(e.a, 2))) >>
            [] e.k = "peek" -> e.v = Get(<<e.cls, e.idx>>)
            [] OTHER -> TRUE
 Init == l = 1 /\ bad = {} /\ mem = <<>>
@@ -37,6 +39,6 @@ Next == /\ l <= Len(Trace) /\ l' = l + 1
                        [] OTHER -> mem
 Spec == Init /\ [][Next]_vars
 Report == l = Len(Trace) + 1 => \A i \in bad : PrintT(<<"BAD", ToJson([line |-> i, ev |-> Trace[i],
-                                   cell |-> IF Trace[i].k = "rd" THEN CellOf(Trace[i].a) ELSE <<0, 0>>])>>)
+                                   cell |-> IF Trace[i].k \in {"rd", "rd24"} THEN CellOf(Trace[i].a) ELSE <<0, 0>>])>>)
 Consumed == TLCGet("stats").diameter - 1 = Len(Trace)
 =============================================================================
